@@ -16,4 +16,28 @@ CHECKS = {
              "model-checked (two independent scale definitions agree, step patterns, relative pairs).",
         note=TB,
         technique="TLA+ oracle (Theory.tla) + TLC validation of records observed from the real CLI, exhaustive"),
+    "C03": dict(
+        text="Exhaustive over the property's own domain: all 12,936 single chords (28 keys x 21 roots x (none + 21 basses)) each through one real "
+             "`crd text conv syllable --key K` run; TLC judges every outcome with Theory.tla (number from letter distance, size from pitch distance, "
+             "scale notes always accepted, a refusal prints nothing).",
+        note=TB,
+        technique="TLA+ oracle (Theory.tla) + TLC validation of records observed from the real CLI, exhaustive"),
+    "C14": dict(
+        text="CircleMC.tla model-checks crd's two-ring index mechanism against pitch arithmetic from all 28 keys (refinement, independence from the "
+             "spelling read, algebraic laws). Every real `crd info key conv` run (quick: all chains <= 3 + seeded long chains; thorough: all 152,880 "
+             "chains <= 6 + 3,000 long ones) is validated by TLC: printed set = Spellings(Fold(chain)).",
+        note=TB,
+        technique="TLA+ mechanism model refined to a what-level model (TLC exhaustive) + TLC trace validation of real CLI runs"),
+    "C15": dict(
+        text="TheoryMC: textbook Size equals an independent scale-walk formulation and Parse(Print(iv)) = iv for n <= 64 x 7 qualities. Every interval "
+             "notation (6 marks x n) x 21 roots x 2 preferences through the real `info attr describe`, all notation strings up to the bound through "
+             "`info attr list`, `gen attr` validity/completeness, `info chord describe` for 21 roots x 23 symbols: each record judged by TLC.",
+        note=TB,
+        technique="TLA+ oracle (Theory.tla, model-checked for self-consistency) + TLC validation of records observed from the real CLI"),
+    "C17": dict(
+        text="TheoryMC: stacking thirds on every degree of every key yields the stated quality lists and stays inside the scale. All 28 x 14 chords "
+             "printed by `info key describe` go through the real pipeline (text conv syllable --key K | write --key K); TLC checks root, quality "
+             "and sounded pitch classes of each.",
+        note=TB,
+        technique="TLA+ oracle (Harmonise in Theory.tla) + TLC validation of whole-pipeline observations, exhaustive"),
 }
